@@ -254,6 +254,9 @@ def build_proofs(prop, timeout=1500):
 
 
 def _coqc_file(path, timeout):
+    # a shard that takes 40 s alone was seen to exceed 600 s with the box at load 100; a time-out is a HARNESS error, never a
+    # verdict, so the floor is generous (the models are total: evaluation always ends)
+    timeout = max(timeout, 3000)
     # large case literals (a rendered page of several hundred kB) overflow coqc's default 8 MB stack: lift the limit for the child
     rc, out = sh("ulimit -s unlimited 2>/dev/null || ulimit -s 1000000 2>/dev/null; exec timeout %d coqc -Q %s DJC -w -notation-overridden %s"
                  % (timeout, COQ, path))
